@@ -80,6 +80,7 @@ pub fn retry_vector(l: &Value) -> Value {
     };
     let scen = ScenarioSpec {
         name: "S1".into(),
+        display: None,
         tags: tags("s", &v["ts"]),
         steps: vec![],
     };
